@@ -318,6 +318,26 @@ func isKafka(err error) bool {
 
 // runTuple evaluates one (operation, fault, next operation) tuple; it returns
 // whether the fault reached the client as an error of the first operation.
+// callOp runs an operation with a watchdog: every operation works under the Conn's deadline, so one that has not returned
+// 20 s after it was called (the deadlines are 0.4 - 1.5 s) never will.
+func callOp(o *op, e *env, c *kafka.Conn) (res string, err error, hung bool) {
+	type out struct {
+		res string
+		err error
+	}
+	ch := make(chan out, 1)
+	go func() {
+		r, err := o.Run(e, c)
+		ch <- out{r, err}
+	}()
+	select {
+	case v := <-ch:
+		return v.res, v.err, false
+	case <-time.After(20 * time.Second):
+		return "", nil, true
+	}
+}
+
 func runTuple(tb ev.TB, t tuple) (delivered bool, firstClass string) {
 	p := findProfile(t.Profile)
 	first, next := findOp(t.Op), findOp(t.Next)
@@ -398,7 +418,11 @@ func runTuple(tb ev.TB, t tuple) (delivered bool, firstClass string) {
 		wait = 400 * time.Millisecond // stalled reads end at the deadline
 	}
 	ca.SetDeadline(time.Now().Add(wait))
-	_, err1 := first.Run(a, ca)
+	_, err1, hung1 := callOp(first, a, ca)
+	if hung1 {
+		ev.Fail(tb, "tuple", fmt.Sprintf("c11/operation-never-returns/%s", t.Op), t, "%s (%s) with fault %q / code %d in field %q had not returned 20 s after it was called (the Conn's deadline was %v away)", t.Op, apiVersionTag(first, p), t.Fault, t.Code, t.Field, wait)
+		return false, "hung"
+	}
 	a.mu.Lock()
 	hit := a.hit
 	a.armed = nil
@@ -415,7 +439,11 @@ func runTuple(tb ev.TB, t tuple) (delivered bool, firstClass string) {
 	}
 	seqBeforeNext := a.cl.Seq()
 	ca.SetDeadline(time.Now().Add(wait))
-	resA, errA := next.Run(a, ca)
+	resA, errA, hungA := callOp(next, a, ca)
+	if hungA {
+		ev.Fail(tb, "tuple", fmt.Sprintf("c11/next-operation-never-returns/%s", t.Op), t, "after %s (%s) with fault %q / code %d in field %q [%v], %s on the same Conn had not returned 20 s after it was called (the Conn's deadline was %v away)", t.Op, apiVersionTag(first, p), t.Fault, t.Code, t.Field, err1, t.Next, wait)
+		return true, firstClass
+	}
 
 	if t.Fault == "" {
 		if err1 != nil && !isKafka(err1) {
